@@ -125,6 +125,8 @@ Parts(c) ==
      <<"bellman_ford", \A s \in Nodes(c) : DistMapOk(c, s, c.bellman[s])>>,
      <<"floyd_warshall", \A s \in Nodes(c) : DistMapOk(c, s, c.floyd[s])>>,
      <<"dijkstra_path", \A s \in Nodes(c) : \A t \in Nodes(c) : PathOk(c, s, t, c.paths[s][t])>>,
+     <<"floyd_warshall_path", \A s \in Nodes(c) : \A t \in Nodes(c) : PathOk(c, s, t, c.floyd_paths[s][t])>>,
+     <<"bellman_ford_path", \A s \in Nodes(c) : \A t \in Nodes(c) : PathOk(c, s, t, c.bellman_paths[s][t])>>,
      <<"astar", \A s \in Nodes(c) : \A t \in Nodes(c) : PathOk(c, s, t, c.astar[s][t])>>,
      <<"connected_components", WccOk(c, c.wcc)>>,
      <<"strongly_connected_components", SccOk(c, c.scc)>>,
